@@ -110,6 +110,9 @@ class SymExec:
                     return Poly.sym(f"<({env[root]!r}).{d.split('.', 1)[1]}>")
                 return Poly.sym(d)
         if isinstance(e, ast.Subscript):
+            key = norm(e)
+            if key in env:
+                return env[key]
             base = self.expr(f, e.value, env, depth)
             return Poly.sym(f"<({base!r})[{norm(e.slice)}]>")
         return Poly.sym("<" + norm(e) + ">")
@@ -127,6 +130,8 @@ class SymExec:
                 for t in tg:
                     if isinstance(t, ast.Name):
                         env[t.id] = self.expr(f, st.value, env, depth)
+                    elif isinstance(t, ast.Subscript):
+                        env[norm(t)] = self.expr(f, st.value, env, depth)
                     elif isinstance(t, (ast.Tuple, ast.List)) and isinstance(st.value, (ast.Tuple, ast.List)) and len(t.elts) == len(st.value.elts):
                         vals = [self.expr(f, v, env, depth) for v in st.value.elts]
                         for x, v in zip(t.elts, vals):
@@ -138,20 +143,21 @@ class SymExec:
                             if isinstance(x, ast.Name):
                                 env[x.id] = Poly.sym(f"<({base!r})[{i}]>")
                 continue
-            if isinstance(st, ast.AugAssign) and isinstance(st.target, ast.Name):
-                cur = env.get(st.target.id, Poly.sym(st.target.id))
+            if isinstance(st, ast.AugAssign) and isinstance(st.target, (ast.Name, ast.Subscript, ast.Attribute)):
+                key = st.target.id if isinstance(st.target, ast.Name) else norm(st.target)
+                cur = env.get(key, self.expr(f, st.target, env, depth) if not isinstance(st.target, ast.Name) else Poly.sym(key))
                 v = self.expr(f, st.value, env, depth)
                 if isinstance(st.op, ast.Add):
-                    env[st.target.id] = cur + v
+                    env[key] = cur + v
                 elif isinstance(st.op, ast.Sub):
-                    env[st.target.id] = cur - v
+                    env[key] = cur - v
                 elif isinstance(st.op, ast.Mult):
-                    env[st.target.id] = cur * v
+                    env[key] = cur * v
                 elif isinstance(st.op, ast.Div):
                     inv = v.inverse()
-                    env[st.target.id] = cur * inv if inv is not None else cur * Poly.sym(f"<1/({v!r})>")
+                    env[key] = cur * inv if inv is not None else cur * Poly.sym(f"<1/({v!r})>")
                 else:
-                    env[st.target.id] = Poly.sym(f"<{st.target.id} {type(st.op).__name__} {v!r}>")
+                    env[key] = Poly.sym(f"<{key} {type(st.op).__name__} {v!r}>")
                 continue
             if isinstance(st, ast.Return):
                 if st.value is None:
